@@ -115,6 +115,8 @@ type SODOpts struct {
 	SigningTimeGeneralized bool
 	Encoding               Encoding
 	ExtraCerts             []*Cert // additional embedded certificates (after the DS certificate)
+	ExtraCertsFirst        bool    // put the additional certificates BEFORE the DS certificate (certificates is a SET)
+	HashOrder              []int   // order of the data group hashes in the LDS security object (nil: ascending)
 	DigestNull             bool    // NULL parameters in digest AlgorithmIdentifiers
 	RSAEncryptionOID       bool    // SignerInfo.signatureAlgorithm = rsaEncryption (PKCS#1 v1.5 DS keys only)
 	DSCert                 *Cert   // another certificate for the same DS key (default: the issuer's DSCert)
@@ -129,7 +131,7 @@ func (is *Issuer) NewSOD(dgs map[int][]byte, o SODOpts) *SignedData {
 	}
 	sd := &SignedData{
 		EContentType:           OIDLDSSecurityObject,
-		EContent:               LDSSecurityObject(o.LDSVersion, is.Profile.Hash, HashDGs(is.Profile.Hash, dgs)),
+		EContent:               LDSSecurityObjectOrdered(o.LDSVersion, is.Profile.Hash, HashDGs(is.Profile.Hash, dgs), o.HashOrder),
 		DigestAlg:              is.Profile.Hash,
 		DigestNull:             o.DigestNull,
 		Certs:                  append([]*Cert{cert}, o.ExtraCerts...),
@@ -147,6 +149,15 @@ func (is *Issuer) NewSOD(dgs map[int][]byte, o SODOpts) *SignedData {
 	so := is.SODSignOpts()
 	so.RSAEncryptionOID = o.RSAEncryptionOID
 	sd.Sign(is.DSKey, so)
+	if o.ExtraCertsFirst && len(o.ExtraCerts) > 0 {
+		// the signer identifier defaults are taken from Certs[0]: pin them to the DS certificate, then reorder
+		if sd.SIDIssuer == nil {
+			sd.SIDIssuer = cert.Spec.Issuer
+		}
+		sd.SIDSerial = Int(cert.Spec.Serial)
+		sd.SIDKeyID = cert.SKI
+		sd.Certs = append(append([]*Cert{}, o.ExtraCerts...), cert)
+	}
 	return sd
 }
 
